@@ -221,7 +221,7 @@ static void drive(lzma_stream *strm, const c04_op *op, const drive_cfg *cfg, c04
 					final = (int)ret;
 					break;
 				}
-				if (noprog > 2000000) {
+				if (noprog > 400000) {
 					c04_bad(r, "no-progress:LZMA_OK-without-progress-%u-times-in-a-row(timeout-mode)", noprog);
 					final = (int)ret;
 					break;
